@@ -329,6 +329,7 @@ Proof.
   - apply E_stop_announce_service.
   - apply E_queue_send.
   - apply E_neutral, n_send_sd.
+  - destruct (get_inst i w); [apply E_put_inst|apply ext_refl].
 Qed.
 
 (* every callback leaves the clock alone and arms timers only at or after the current instant *)
